@@ -199,6 +199,11 @@ def run(ctx):
             ge = L.cond_edges(lig, gt, llive)
             if ge and n.id not in lig.reach([lig.entry], removed_edges=ge):
                 ok = True
+            # or min = std::min(min, local)
+            mn = lig.ev_of(strip_cast(lig.resolve(n.ev["rhs"], n.frame)))
+            if mn is not None and mn.ev["e"] == "call" and mn.ev.get("name") == "min" and \
+                    any(pstr(strip_cast(lig.resolve(a_, mn.frame))) == lhs for a_ in mn.ev.get("args", [])):
+                ok = True
         ctx.ob("C09.R3c", inst, ok, lfn.loc, "the scan must keep the minimum slot version (assign only when current > slot)")
         rets = [n for n in ig.ev_nodes() if n.id in live and n.ev["e"] == "ret" and n.frame.id == 0]
         init_ok = False
